@@ -7,7 +7,7 @@ PROPS["C15"] = dict(
                "is disjoint from the other fields' footprints and holds the value MSB-first for big-endian protocols; 100 hand-packed fields are pinned to their RFC positions.",
     level_note="Pairs whose setter changes size() are option setters (C04's domain) and are skipped (counted). Trusted: the alias-group list, the derived-byte list and the spec table in harness/c15.cpp. "
                "Little-endian classes (802.11, RadioTap, PPI, Loopback) are checked for footprint width/disjointness and getter algebra only.",
-    phases=[dict(name="fields", harness="c15.cpp", flavor="asan", mode="main", cases=dict(quick=45 * 3 * 4, thorough=45 * 3 * 8))],
+    phases=[dict(name="fields", harness="c15.cpp", flavor="asan", mode="main", cases=dict(quick=45 * 3 * 4, thorough=45 * 3 * 8), watchdog=1500)],
     rule="case = (class, prior-state round): every scalar field of the class with its value set; distinct = distinct (field, prior-state kind)",
     floors=dict(any={"distinct": 300, "sets": 100000, "field_pairs_in_table": 300, "spec_table_checks": 10000, "generic_order_checks": 10000, "overwide_rejected": 50, "fields_with_footprint": 500}),
     assumptions=["x86-64 little-endian host", "standalone serialization of the layer (no parent): TCP/UDP checksums over a pseudo-header are C05's business"],
